@@ -3,7 +3,7 @@
 
 Property-based check of rurban/safeclib's wcsnorm_s / towfc_s / wcsfc_s / iswfc
 against CPython's unicodedata (UCD 14):
-  part 1  exhaustive: every code point assigned in UCD 14, NFD + NFC, *lenp, fixed point
+  part 1  exhaustive: every code point assigned in UCD 14, NFD + NFC, *lenp, fixed point, dmax sweep
   part 2  exhaustive: every canonical 2-element decomposition pair (composing and
           excluded), pairs with an intervening mark, all Hangul syllables <-> jamo
   part 3  Hypothesis: strings <= 12 of starters, scrambled marks, jamo; dmax sweep
@@ -41,6 +41,7 @@ PY = sys.executable
 TABLES = None
 BAD_DECOMP = {}     # (mode, code point) -> finding key of the defect that code point shows on its own
 PAIRSET = set()     # canonical 2-element decompositions (first, second)
+ALIAS16SET = set()  # characters x (not themselves composing marks) with x & 0xFFFF == second element of a composing pair
 OPEN_PATTERNS = []  # key patterns of open known findings
 
 
@@ -68,7 +69,16 @@ def build_tables():
     composing = [(a, b, c) for (a, b, c) in pairs if ud.normalize("NFC", chr(a) + chr(b)) == chr(c)]
     excluded = [(a, b, c) for (a, b, c) in pairs if ud.normalize("NFC", chr(a) + chr(b)) != chr(c)]
     marks = sorted(m for l in marks_by_ccc.values() for m in l)
-    return dict(assigned=assigned, marks_by_ccc=dict(marks_by_ccc), marks=marks, decomposable=decomposable,
+    aset = set(assigned)
+    # characters of other planes whose low 16 bits equal the second element of a composing pair
+    # (a composition lookup that truncates code points to 16 bits would confuse them)
+    alias16 = collections.defaultdict(list)
+    for b in sorted({b for _, b, _ in composing}):
+        for p in range(0, 17):
+            x = (b & 0xFFFF) | (p << 16)
+            if x != b and x in aset:
+                alias16[b].append(x)
+    return dict(alias16=dict(alias16), alias16_all=sorted({x for l in alias16.values() for x in l}),assigned=assigned, marks_by_ccc=dict(marks_by_ccc), marks=marks, decomposable=decomposable,
                 pairs=pairs, composing=composing, excluded=excluded,
                 comp_first=sorted({a for a, _, _ in composing}), comp_second=sorted({b for _, b, _ in composing}))
 
@@ -153,7 +163,163 @@ def seq_key(mode, vk, cps):
         return "C17:wcsnorm_s:%s-pair%s:%s" % (sub, suf, "+".join(u(c) for c in cps))
     if all(core.token(c) in ("L", "V", "T", "LV", "LVT", "J") for c in cps):
         return "C17:wcsnorm_s:%s-hangul%s:%s" % (sub, suf, core.pattern(cps))
+    if any(c in ALIAS16SET for c in cps[1:]):
+        # a non-initial character of another plane whose low 16 bits equal the second element of a composing pair
+        return "C17:wcsnorm_s:%s-string%s:alias16" % (sub, suf)
     return "C17:wcsnorm_s:%s-string%s:%s" % (sub, suf, core.pattern(cps))
+
+
+# ===================================================================== crash-safe workers
+
+TRACE_FD = None  # in a traced child: every item is announced before it is evaluated
+MAX_CRASHES = 8
+
+
+def trace(obj):
+    os.write(TRACE_FD, (json.dumps(obj) + "\n").encode())
+
+
+def merge_results(parts):
+    out = {}
+    for r in parts:
+        for k, v in r.items():
+            if k not in out:
+                out[k] = v if not isinstance(v, list) else list(v)
+            elif isinstance(v, (list, int, float)):
+                out[k] = out[k] + v
+            elif isinstance(v, collections.Counter):
+                out[k].update(v)
+    return out
+
+
+def _traced_child(fn, arg, conn, tpath):
+    global TRACE_FD
+    TRACE_FD = os.open(tpath, os.O_WRONLY | os.O_CREAT | os.O_TRUNC, 0o600)
+    try:
+        conn.send(fn(arg))
+    finally:
+        conn.close()
+    os._exit(0)
+
+
+def run_traced(fn, arg):
+    """run fn(arg) in a forked child; -> (result | None, last traced item | None, exit code)"""
+    import tempfile
+    ctx = multiprocessing.get_context("fork")
+    fd, tpath = tempfile.mkstemp(prefix="c17trace.")
+    os.close(fd)
+    pc, cc = ctx.Pipe(duplex=False)
+    p = ctx.Process(target=_traced_child, args=(fn, arg, cc, tpath))
+    p.start()
+    cc.close()
+    res = None
+    try:
+        while True:
+            if pc.poll(0.05):
+                try:
+                    res = pc.recv()
+                except EOFError:
+                    res = None
+                break
+            if not p.is_alive():
+                if pc.poll(0.05):
+                    try:
+                        res = pc.recv()
+                    except EOFError:
+                        res = None
+                break
+    finally:
+        p.join()
+    last = None
+    try:
+        with open(tpath, "rb") as f:
+            ls = [l for l in f.read().decode(errors="replace").splitlines() if l.strip()]
+        if ls:
+            try:
+                last = json.loads(ls[-1])
+            except ValueError:
+                last = json.loads(ls[-2]) if len(ls) > 1 else None
+    finally:
+        os.unlink(tpath)
+    return res, last, p.exitcode
+
+
+def safe_map(fn, chunk_list, nworkers, empty):
+    """map fn over chunks in forked workers.  If the library kills a worker, the
+    chunks without result are re-run one by one in traced children, the
+    crashing item is identified and skipped, and the search goes on.
+    -> (results, crashes [(item, exitcode)], truncated)"""
+    from concurrent.futures import ProcessPoolExecutor
+    from concurrent.futures.process import BrokenProcessPool
+    ctx = multiprocessing.get_context("fork")
+    results = [None] * len(chunk_list)
+    broken = False
+    with ProcessPoolExecutor(nworkers, mp_context=ctx) as ex:
+        futs = [ex.submit(fn, c) for c in chunk_list]
+        for i, f in enumerate(futs):
+            try:
+                results[i] = f.result()
+            except BrokenProcessPool:
+                broken = True
+            except Exception:
+                broken = True
+                raise
+    crashes, truncated = [], False
+    if not broken:
+        return results, crashes, truncated
+    for i, c in enumerate(chunk_list):
+        if results[i] is not None:
+            continue
+        if len(crashes) >= MAX_CRASHES:
+            truncated = True
+            results[i] = dict(empty)
+            continue
+        segs, got = [c], []
+        while segs:
+            seg = segs.pop(0)
+            if len(seg) == 0:
+                continue
+            if len(crashes) >= MAX_CRASHES:
+                truncated = True
+                break
+            res, last, code = run_traced(fn, seg)
+            if res is not None:
+                got.append(res)
+                continue
+            if last is None:  # died before the first item: give the segment up
+                crashes.append((None, code))
+                continue
+            idx = last["i"]
+            crashes.append((last, code))
+            segs = [seg[:idx], seg[idx + 1:]] + segs
+        results[i] = merge_results(got) if got else dict(empty)
+    return results, crashes, truncated
+
+
+EMPTY = dict(fails=[], evals=0, nontrivial=0, calls=0, past=0)
+
+
+def add_crashes(F, part, crashes, truncated, cov_part):
+    for item, code in crashes:
+        if item is None:
+            F.add("C17:internal:worker-died-part%d" % part, norm_case([0x61], "NFD"),
+                  "a worker of part %d died (exit %s) before announcing an item" % (part, code), part)
+            continue
+        if item["t"] == "fold":
+            key = "C17:fold:crash:%s" % u(item["cp"])
+            case = dict(kind="fold", cp=item["cp"])
+            what = "iswfc/towfc_s/wcsfc_s(%s)" % u(item["cp"])
+        else:
+            cps = item["cps"]
+            key = ("C17:wcsnorm_s:crash-single:%s" % u(cps[0])) if len(cps) == 1 else \
+                  ("C17:wcsnorm_s:crash-string:%s" % core.pattern(cps))
+            case = dict(kind="string", cps=cps, bos=bool(item.get("bos")))
+            what = "wcsnorm_s(%s)" % ustr(cps)
+        F.add(key, case, "%s killed the worker process (exit code %s)" % (what, code), part)
+    cov_part["worker_crashes"] = len(crashes)
+    if truncated:
+        cov_part["truncated_after_crashes"] = True
+        cov_part["exhaustive"] = False
 
 
 # ===================================================================== part 1
@@ -169,30 +335,32 @@ def _delta(m):
 
 
 def w_part1(chunk):
-    fails, ev, nt = [], 0, 0
+    fails, evc, nt = [], [0], 0
     m = _mark()
-    for cp in chunk:
+    for i, cp in enumerate(chunk):
+        if TRACE_FD is not None:
+            trace(dict(t="norm", i=i, cps=[cp]))
         for mode in ("NFD", "NFC"):
-            ev += 1
-            for vk, d in core.check_norm([cp], mode):
-                fails.append((mode, vk, cp, d))
+            r = core.eval_string([cp], mode, False, True, evc)  # ample, then dmax 1 .. len(NFD)+7
+            if r:
+                fails.append((mode, r[0], cp, r[1], r[2]))
         if core.nontrivial_cp(cp):
             nt += 1
-    return dict(fails=fails, evals=ev, nontrivial=nt, **_delta(m))
+    return dict(fails=fails, evals=evc[0], nontrivial=nt, **_delta(m))
 
 
 def norm_case(cps, mode, dmax=None, bos=False):
     return dict(kind="norm", cps=list(cps), mode=mode, dmax=dmax, bos=bool(bos))
 
 
-def part1(pool, F, cov):
+def part1(nworkers, F, cov):
     global BAD_DECOMP
     T = TABLES
-    res = pool.map(w_part1, chunks(T["assigned"], 128))
+    res, crashes, trunc = safe_map(w_part1, chunks(T["assigned"], 128), nworkers, EMPTY)
     fails = [f for r in res for f in r["fails"]]
     by = collections.defaultdict(list)
-    for mode, vk, cp, d in fails:
-        by[(mode, vk)].append((cp, norm_case([cp], mode), d))
+    for mode, vk, cp, d, dmax in fails:
+        by[(mode, vk)].append((cp, norm_case([cp], mode, dmax), d))
     BAD_DECOMP = {}
     # NFD mismatches first: they are the root cause of the NFC failure of the same code point
     order = sorted(by, key=lambda k: (k != ("NFD", "mismatch"), k))
@@ -208,6 +376,7 @@ def part1(pool, F, cov):
         code_points=len(T["assigned"]), evaluations=sum(r["evals"] for r in res),
         nontrivial=sum(r["nontrivial"] for r in res), failing_evaluations=len(fails),
         library_calls=sum(r["calls"] for r in res), exhaustive=True)
+    add_crashes(F, 1, crashes, trunc, cov["parts"]["1_single_codepoints"])
     cov["_past_dmax"] += sum(r["past"] for r in res)
     return sum(r["evals"] for r in res), sum(r["nontrivial"] for r in res)
 
@@ -230,6 +399,9 @@ def part2_cases(tier):
         for x in MID_MARKS:
             cases.append(("triple", (a, x, b)))
             cases.append(("triple", (a, b, x)))
+    for a, b, c in T["composing"]:
+        for x in T["alias16"].get(b, ()):
+            cases.append(("alias16", (a, x)))
     for s in range(SB, SB + 11172):
         t = (s - SB) % 28
         cases.append(("hangul", (s,)))
@@ -247,27 +419,29 @@ def part2_cases(tier):
 
 
 def w_part2(chunk):
-    fails, ev, nt = [], 0, 0
+    fails, evc, nt = [], [0], 0
     m = _mark()
-    for label, cps in chunk:
+    for i, (label, cps) in enumerate(chunk):
         cps = list(cps)
+        if TRACE_FD is not None:
+            trace(dict(t="norm", i=i, cps=cps))
         for mode in ("NFD", "NFC"):
-            ev += 1
-            for vk, d in core.check_norm(cps, mode):
-                fails.append((label, mode, vk, cps, d))
+            r = core.eval_string(cps, mode, False, True, evc)
+            if r:
+                fails.append((label, mode, r[0], cps, r[1], r[2]))
         if core.nontrivial_str(cps):
             nt += 1
-    return dict(fails=fails, evals=ev, nontrivial=nt, **_delta(m))
+    return dict(fails=fails, evals=evc[0], nontrivial=nt, **_delta(m))
 
 
-def part2(pool, F, cov, tier):
+def part2(nworkers, F, cov, tier):
     cases = part2_cases(tier)
     cases = list(dict.fromkeys(cases))  # distinct
-    res = pool.map(w_part2, chunks(cases, 128))
+    res, crashes, trunc = safe_map(w_part2, chunks(cases, 128), nworkers, EMPTY)
     fails = [f for r in res for f in r["fails"]]
     bykey = collections.OrderedDict()
-    for label, mode, vk, cps, d in fails:
-        bykey.setdefault(seq_key(mode, vk, cps), []).append((cps, norm_case(cps, mode), d))
+    for label, mode, vk, cps, d, dmax in fails:
+        bykey.setdefault(seq_key(mode, vk, cps), []).append((cps, norm_case(cps, mode, dmax), d))
     for k, items in bykey.items():
         F.add(k, items[0][1], items[0][2] + ("" if len(items) == 1 else " (+%d more strings of this class)" % (len(items) - 1)),
               2, len(items))
@@ -277,6 +451,7 @@ def part2(pool, F, cov, tier):
         excluded_pairs=len(TABLES["excluded"]), evaluations=sum(r["evals"] for r in res),
         nontrivial=sum(r["nontrivial"] for r in res), failing_evaluations=len(fails),
         library_calls=sum(r["calls"] for r in res), exhaustive=True)
+    add_crashes(F, 2, crashes, trunc, cov["parts"]["2_pairs_hangul"])
     cov["_past_dmax"] += sum(r["past"] for r in res)
     cov["_samples"] += [dict(part=2, label=l, case=norm_case(c, "NFC")) for l, c in (cases[0], cases[len(cases) // 3], cases[-1])]
     return sum(r["evals"] for r in res), sum(r["nontrivial"] for r in res)
@@ -293,7 +468,8 @@ def make_strategy(st):
     simple = [ord(c) for c in "aeiouyAEIOUcnsz"] + [0x03B1, 0x03C5, 0x03C9, 0x0391, 0x0415]
     mark = st.one_of(st.sampled_from(common_marks), st.sampled_from(T["comp_second"]), st.sampled_from(T["marks"]))
     starter = st.one_of(st.sampled_from(simple), st.sampled_from(T["comp_first"]),
-                        st.sampled_from(T["decomposable"]), st.sampled_from(T["assigned"]))
+                        st.sampled_from(T["decomposable"]), st.sampled_from(T["assigned"]),
+                        st.sampled_from(T["alias16_all"]))
 
     @st.composite
     def scrambled(draw):
@@ -311,7 +487,11 @@ def make_strategy(st):
     hangul = st.lists(jamo, min_size=1, max_size=4)
     marks_only = st.one_of(st.lists(mark, min_size=1, max_size=3), scrambled())
     cluster = st.one_of(cluster_marks, pair_cluster, hangul, marks_only, starter.map(lambda c: [c]))
-    return st.lists(cluster, min_size=1, max_size=5).map(lambda cl: [c for x in cl for c in x][:12])
+    clustered = st.lists(cluster, min_size=1, max_size=5).map(lambda cl: [c for x in cl for c in x][:12])
+    # more than 10 marks in one run: the library switches from its stack array to the heap there
+    long_run = st.tuples(st.lists(starter, max_size=1), st.lists(mark, min_size=10, max_size=12)).map(
+        lambda t: (list(t[0]) + list(t[1]))[:12])
+    return st.one_of(clustered, clustered, clustered, long_run)
 
 
 def variants(cps):
@@ -337,7 +517,8 @@ def variants(cps):
 
 
 def w_hyp(arg):
-    widx, nexamples, sd, max_rounds = arg
+    widx, nexamples, sd, max_rounds, skip = arg
+    skip = {tuple(x) for x in skip}
     import hypothesis
     from hypothesis import given, settings, strategies as st, HealthCheck, Phase, Verbosity
 
@@ -353,8 +534,14 @@ def w_hyp(arg):
     samples = []
     state = dict(raise_new=True)
     evcount = [0]
+    m0 = _mark()
+    stats0 = dict(core.STATS)
 
     def run_one(cps, bos):
+        if skip and tuple(cps) in skip:
+            return  # this string killed the process in an earlier attempt (already recorded)
+        if TRACE_FD is not None:
+            trace(dict(t="norm", i=0, cps=cps, bos=bos))
         stats["invocations"] += 1
         h = hash(tuple(cps))
         if h not in distinct:
@@ -416,19 +603,45 @@ def w_hyp(arg):
         except Exception as e:  # Flaky etc.: report, never hide
             found["C17:internal:hypothesis-error"] = (norm_case([0x61], "NFD"), "hypothesis raised %r" % (e,))
             break
-    L = core.lib()
-    stats.update(core.STATS)
+    for k, v0 in stats0.items():
+        stats[k] = core.STATS[k] - v0
     stats["evals"] = evcount[0]
     return dict(found=found, counts=dict(counts), stats=dict(stats), distinct=distinct, distinct_nt=distinct_nt,
-                samples=samples, calls=L.calls, past=L.past_dmax, rounds=rounds)
+                samples=samples, rounds=rounds, **_delta(m0))
 
 
 def part3(nworkers, F, cov, tier):
-    per = {"quick": 3000, "thorough": 30000}[tier]
+    per = {"quick": 3000, "thorough": 20000}[tier]
     per = int(os.environ.get("C17_HYP_EXAMPLES", per))
+    from concurrent.futures import ProcessPoolExecutor
+    from concurrent.futures.process import BrokenProcessPool
     ctx = multiprocessing.get_context("fork")
-    with ctx.Pool(nworkers) as pool:
-        res = pool.map(w_hyp, [(w, per, BASE_SEED + 1000003 * w, 6) for w in range(nworkers)], chunksize=1)
+    args = [(w, per, BASE_SEED + 1000003 * w, 6, []) for w in range(nworkers)]
+    res = [None] * nworkers
+    with ProcessPoolExecutor(nworkers, mp_context=ctx) as ex:
+        futs = [ex.submit(w_hyp, x) for x in args]
+        for i, f in enumerate(futs):
+            try:
+                res[i] = f.result()
+            except BrokenProcessPool:
+                pass
+    crashes, truncated = [], False
+    for i in range(nworkers):  # a worker was killed by the library: find the string, skip it, go on
+        skip = []
+        while res[i] is None:
+            if len(crashes) >= MAX_CRASHES or len(skip) >= 4:
+                truncated = True
+                break
+            r, last, code = run_traced(w_hyp, args[i][:4] + (skip,))
+            if r is not None:
+                res[i] = r
+                break
+            crashes.append((last, code))
+            if last is None:
+                truncated = True
+                break
+            skip = skip + [last["cps"]]
+    res = [r for r in res if r is not None]
     distinct, distinct_nt = set(), set()
     counts = collections.Counter()
     for r in res:
@@ -455,6 +668,7 @@ def part3(nworkers, F, cov, tier):
         evaluations=st_all["evals"], dmax_sweep_rejected=st_all["small_dmax_rejected"],
         dmax_sweep_success_checked=st_all["small_dmax_success"],
         library_calls=sum(r["calls"] for r in res), shrink_rounds=sum(r["rounds"] for r in res), exhaustive=False)
+    add_crashes(F, 3, crashes, truncated, cov["parts"]["3_hypothesis_strings"])
     cov["_past_dmax"] += sum(r["past"] for r in res)
     cov["_samples"] += [s for r in res[:3] for s in r["samples"][:2]]
     return st_all["evals"], len(distinct_nt)
@@ -463,12 +677,13 @@ def part3(nworkers, F, cov, tier):
 # ===================================================================== part 4
 
 def w_part4(rng):
-    lo, hi = rng
     fails, ev, nt = [], 0, 0
     m = _mark()
-    for cp in range(lo, hi):
+    for i, cp in enumerate(rng):
         if 0xD800 <= cp <= 0xDFFF:
             continue
+        if TRACE_FD is not None:
+            trace(dict(t="fold", i=i, cp=cp))
         ev += 1
         v = core.check_fold(cp)
         for vk, d in v:
@@ -480,9 +695,8 @@ def w_part4(rng):
 
 def w_part4_hist(rng):
     """informational histogram (iswfc, sign of towfc_s return, characters written)"""
-    lo, hi = rng
     hist = collections.Counter()
-    for cp in range(lo, hi):
+    for cp in rng:
         if 0xD800 <= cp <= 0xDFFF:
             continue
         n, ret, out = core.fold_facts(cp)
@@ -492,10 +706,10 @@ def w_part4_hist(rng):
     return hist
 
 
-def part4(pool, F, cov):
+def part4(nworkers, F, cov):
     step = 0x110000 // 256
-    ranges = [(max(1, lo), min(0x110000, lo + step)) for lo in range(0, 0x110000, step)]
-    res = pool.map(w_part4, ranges)
+    ranges = [range(max(1, lo), min(0x110000, lo + step)) for lo in range(0, 0x110000, step)]
+    res, crashes, trunc = safe_map(w_part4, ranges, nworkers, EMPTY)
     fails = [f for r in res for f in r["fails"]]
     by = collections.defaultdict(list)
     for vk, cp, d in fails:
@@ -515,13 +729,16 @@ def part4(pool, F, cov):
         for cp, case, d in items:
             F.add("C17:%s:%s:%s" % (fn, sub, u(cp)), case, d, 4)
     hist = collections.Counter()
-    for h in pool.map(w_part4_hist, ranges[::8]):  # every 8th range: informational only
-        hist.update(h)
+    if not crashes:
+        with multiprocessing.get_context("fork").Pool(nworkers) as pool:
+            for h in pool.map(w_part4_hist, ranges[::8]):  # every 8th range: informational only
+                hist.update(h)
     cov["parts"]["4_fold_lengths"] = dict(
         scalar_values=sum(r["evals"] for r in res), evaluations=sum(r["evals"] for r in res),
         nontrivial=sum(r["nontrivial"] for r in res), failing=len(fails),
         library_calls=sum(r["calls"] for r in res), exhaustive=True,
         histogram_sampled_every_8th_range=dict(hist))
+    add_crashes(F, 4, crashes, trunc, cov["parts"]["4_fold_lengths"])
     cov["_past_dmax"] += sum(r["past"] for r in res)
     cov["_samples"] += [dict(part=4, case=dict(kind="fold", cp=c), note=n) for c, n in
                         ((0x00DF, "sharp s -> ss"), (0x1F88, "fold + NFD"), (0x0390, "3 characters"))]
@@ -586,13 +803,24 @@ def load_replay(path):
         return json.load(f)
 
 
+def _eval_case(case):
+    return core.evaluate(case)
+
+
 def do_replay(path, verbose=True):
     rep = load_replay(path)
-    v = core.evaluate(rep["case"])
+    case = rep["case"]
+    if case.get("kind") == "oor":
+        v = core.evaluate(case)  # runs in its own child already
+    else:
+        core.lib()
+        v, _last, code = run_traced(_eval_case, case)  # a crash of the library must not look like "passes"
+        if v is None:
+            v = [("crash", "the library killed the replay process (exit code %s)" % code)]
     if verbose:
         print("replay %s" % path)
         print("  key:  %s" % rep.get("key"))
-        print("  case: %s" % json.dumps(rep["case"]))
+        print("  case: %s" % json.dumps(case))
         if v:
             for vk, d in v:
                 print("  VIOLATES [%s] %s" % (vk, d))
@@ -625,7 +853,7 @@ def save_replay(key, ent):
 # ===================================================================== main
 
 def main():
-    global TABLES, OPEN_PATTERNS, PAIRSET
+    global TABLES, OPEN_PATTERNS, PAIRSET, ALIAS16SET
     ap = argparse.ArgumentParser()
     ap.add_argument("--tier", default=os.environ.get("VERIF_TIER", "quick"), choices=["quick", "thorough"])
     ap.add_argument("--replay")
@@ -639,12 +867,15 @@ def main():
     import driver
     import jsonschema
     parts = {int(x) for x in a.parts.split(",") if x}
+    if os.environ.get("C17_KNOWN_FILE"):  # self-test of the known-findings protocol only
+        driver.KNOWN_FILE = os.environ["C17_KNOWN_FILE"]
     opn, fixed = driver.load_known()
     opn, fixed = opn.get(PROP, []), fixed.get(PROP, [])
     OPEN_PATTERNS = [e["key"] for e in opn if e.get("key")]
     core.lib()  # build + load before forking
     TABLES = build_tables()
     PAIRSET = {(a, b) for a, b, _ in TABLES["pairs"]}
+    ALIAS16SET = set(TABLES["alias16_all"]) - set(TABLES["comp_second"])
     F = Findings()
     cov = dict(parts={}, _samples=[], _past_dmax=0)
     ctx = multiprocessing.get_context("fork")
@@ -659,18 +890,15 @@ def main():
         nt_total += n
         timing[name] = round(time.time() - t, 2)
 
+    # worker pools are forked per part so that BAD_DECOMP (root causes from part 1) is inherited
     if 1 in parts:
-        with ctx.Pool(a.workers) as pool:
-            timed("part1", lambda: part1(pool, F, cov))
-    # pools are created per part so that BAD_DECOMP (root causes from part 1) is inherited
+        timed("part1", lambda: part1(a.workers, F, cov))
     if 2 in parts:
-        with ctx.Pool(a.workers) as pool:
-            timed("part2", lambda: part2(pool, F, cov, a.tier))
+        timed("part2", lambda: part2(a.workers, F, cov, a.tier))
     if 3 in parts:
         timed("part3", lambda: part3(a.workers, F, cov, a.tier))
     if 4 in parts:
-        with ctx.Pool(a.workers) as pool:
-            timed("part4", lambda: part4(pool, F, cov))
+        timed("part4", lambda: part4(a.workers, F, cov))
     if 5 in parts:
         timed("part5", lambda: part5(F, cov))
 
@@ -744,7 +972,8 @@ def main():
     coverage = dict(
         evaluations=ev_total, distinct_nontrivial=nt_total,
         rule="parts 1,2,4,5 enumerate their spaces (all code points assigned in UCD 14 x {NFD,NFC}; all canonical "
-             "2-element decomposition pairs, pairs with an intervening/trailing mark of 10 combining classes, all 11172 "
+             "2-element decomposition pairs, pairs with an intervening/trailing mark of 10 combining classes, starter + every "
+             "assigned character of another plane whose low 16 bits equal a composing mark, all 11172 "
              "Hangul syllables, LV+T and L x V x T jamo strings including one-past boundaries; every scalar value for "
              "the fold relations; 7 out-of-range values + all 2048 surrogates x 9 entry points x 6 string shapes); part 3 "
              "draws Hypothesis strings of <= 12 characters, each also reversed and with its mark runs reversed (starter + marks, marks of >= 3 distinct combining classes "
